@@ -6,7 +6,7 @@
    send_str() with the virtual time of the return, the public `closed`, `close_code`,
    `exception()`, tasks still blocked at quiescence, loop exception-handler calls.
 
-   cfg:  side ("server" | "client"), closeTimeout (virtual seconds)
+   cfg:  side ("server" | "client"), closeTimeout, heartbeat (virtual seconds; 0 = off)
    Every event carries  ev t k code now closed cc tcl info n :
      call    t k              task t calls k in {"receive","close","send"} at time now
      ret     t k info code    ... and it returns: info = DATA CLOSE CLOSING CLOSED ERROR PING PONG |
@@ -45,14 +45,20 @@ GetD(f, k, d) == IF k \in DOMAIN f THEN f[k] ELSE d
 NoCall == [api |-> "", at |-> 0, rx0 |-> 0]
 
 M0 == [ nClose |-> 0, closeSent |-> FALSE, rxClose |-> 0, rxBad |-> FALSE, nRx |-> 0,
-        abn |-> FALSE, cut |-> FALSE, sawClosing |-> FALSE, cancelledClose |-> FALSE,
+        abn |-> FALSE, soft |-> FALSE, seenClose |-> 0, cut |-> FALSE, sawClosing |-> FALSE, cancelledClose |-> FALSE,
         ccTrue |-> 0, call |-> <<>>, blkRecv |-> FALSE, blkClose |-> FALSE ]
 
 R(mm, b) == [m |-> mm, bad |-> b]
 
+(* abn  = something ended the session abnormally: connection cut, protocol error, a close() call that was
+          cancelled or ran into the close timeout, a recorded exception()
+   soft = an operation failed but the session stayed open: a receive() that timed out or was cancelled, a
+          cancelled or refused send.  That excuses 1006 only as long as the application was not handed the
+          peer's Close frame: once receive() returned CLOSE(c) and nothing abnormal ended the session, the
+          reported code must be c.                                                                        *)
 Allowed(mm, e) ==
     (IF mm.rxClose # 0 THEN {mm.rxClose} ELSE {})
-    \cup (IF mm.abn \/ e.info # "" THEN {1006} ELSE {})
+    \cup (IF mm.abn \/ e.info # "" \/ (mm.soft /\ mm.seenClose = 0) THEN {1006} ELSE {})
     \cup (IF mm.rxBad THEN {1002} ELSE {})
 
 Step(e, c) ==
@@ -62,8 +68,9 @@ Step(e, c) ==
             LET cl == GetD(m.call, e.t, NoCall)
                 dur == e.now - cl.at
                 m1 == [m EXCEPT !.call = Upd(@, e.t, NoCall),
-                                !.abn = @ \/ e.info \in {"Timeout", "Cancelled", "ConnErr"}
-                                          \/ (e.k = "close" /\ dur >= c.closeTimeout),
+                                !.abn = @ \/ (e.k = "close" /\ (e.info = "Cancelled" \/ dur >= c.closeTimeout)),
+                                !.soft = @ \/ (e.k # "close" /\ e.info \in {"Timeout", "Cancelled", "ConnErr"}),
+                                !.seenClose = IF @ = 0 /\ e.k = "receive" /\ e.info = "CLOSE" THEN e.code ELSE @,
                                 !.sawClosing = @ \/ (e.k = "receive" /\ e.info = "CLOSING"),
                                 !.cancelledClose = @ \/ (e.k = "close" /\ e.info = "Cancelled"),
                                 !.ccTrue = IF @ = 0 /\ e.k = "close" /\ e.info = "True" THEN e.cc ELSE @]
@@ -82,7 +89,7 @@ Step(e, c) ==
             ELSE IF e.k = "bad" THEN R([m EXCEPT !.rxBad = TRUE, !.abn = TRUE], "")
             ELSE R([m EXCEPT !.nRx = @ + 1], "")
       [] e.ev \in {"drop", "eof"} -> R([m EXCEPT !.abn = TRUE, !.cut = TRUE], "")
-      [] e.ev = "cancel" -> R([m EXCEPT !.abn = TRUE], "")
+      [] e.ev = "cancel" -> R([m EXCEPT !.soft = TRUE], "")
       [] e.ev = "blocked" ->
             R([m EXCEPT !.blkRecv = @ \/ e.k = "receive", !.blkClose = @ \/ e.k = "close"], "")
       [] e.ev = "quiesce" ->
@@ -90,7 +97,10 @@ Step(e, c) ==
                  ELSE IF m.blkClose
                       THEN (IF c.side = "client" /\ m.nRx > 0 /\ ~m.blkRecv THEN "CloseTimeoutRearmedByTraffic"
                             ELSE "CloseWaitResolved")
-                 ELSE IF m.blkRecv /\ (e.closed \/ e.tcl \/ m.rxClose # 0 \/ m.rxBad \/ m.cut)
+                 \* with a heartbeat a silent peer ends the session within heartbeat + pong timeout: a receive()
+                 \* still blocked after the horizon means the heartbeat died
+                 ELSE IF m.blkRecv /\ (e.closed \/ e.tcl \/ m.rxClose # 0 \/ m.rxBad \/ m.cut
+                                       \/ Get(c, "heartbeat", 0) > 0)
                       THEN "ReceiveNotStuck"
                  ELSE IF e.closed /\ ~e.tcl
                       THEN (IF m.cancelledClose THEN "CancelledCloseSkipsCleanup" ELSE "ClosedClosesTransport")
